@@ -11,14 +11,15 @@ use crate::fmt::temporal::printer::DateTimePrinter;
 use crate::verif_kani::spec::*;
 
 const BUF: usize = 20;
-pub struct Buf { pub b: [u8; BUF], pub n: usize, pub overflow: bool }
-impl Buf { pub fn new() -> Buf { Buf { b: [0; BUF], n: 0, overflow: false } } }
-impl crate::fmt::Write for Buf {
+pub struct BufN<const N: usize> { pub b: [u8; N], pub n: usize, pub overflow: bool }
+pub type Buf = BufN<BUF>;
+impl<const N: usize> BufN<N> { pub fn new() -> BufN<N> { BufN { b: [0; N], n: 0, overflow: false } } }
+impl<const N: usize> crate::fmt::Write for BufN<N> {
     fn write_str(&mut self, s: &str) -> Result<(), Error> {
         let bytes = s.as_bytes();
         let mut i = 0;
         while i < bytes.len() {
-            if self.n >= BUF { self.overflow = true; return Ok(()); }
+            if self.n >= N { self.overflow = true; return Ok(()); }
             self.b[self.n] = bytes[i];
             self.n += 1;
             i += 1;
@@ -40,7 +41,8 @@ fn dg4(a: u8, b: u8, c: u8, d: u8) -> Option<i64> {
 }
 /// ISO 8601 extended calendar date: `YYYY-MM-DD` (10 bytes) or, with the expanded year, `sYYYYYY-MM-DD`
 /// (13 bytes, s = '+' | '-'; "-000000" is not a year).  Returns the named (y, m, d) if it is a Gregorian date.
-fn ref_date(b: &[u8; BUF], n: usize) -> Option<(i64, i64, i64)> {
+fn ref_date<const N: usize>(b: &[u8; N], n: usize) -> Option<(i64, i64, i64)> {
+    if n > N { return None; }
     let (y, at) = if n == 10 {
         (dg4(b[0], b[1], b[2], b[3])?, 4)
     } else if n == 13 {
@@ -63,8 +65,8 @@ fn ref_date(b: &[u8; BUF], n: usize) -> Option<(i64, i64, i64)> {
     Some((y, m, d))
 }
 /// RFC 3339 partial-time `HH:MM:SS[.f+]` with 1..=9 fraction digits; returns (h, m, s, nanosecond).
-fn ref_time(b: &[u8; BUF], n: usize) -> Option<(i64, i64, i64, i64)> {
-    if n < 8 || n == 9 || n > 18 { return None; }
+fn ref_time<const N: usize>(b: &[u8; N], n: usize) -> Option<(i64, i64, i64, i64)> {
+    if n < 8 || n == 9 || n > 18 || n > N { return None; }
     if b[2] != b':' || b[5] != b'.' { return None; }
     let h = dg2(b[0], b[1])?;
     let m = dg2(b[3], b[4])?;
@@ -101,7 +103,7 @@ fn mk_time(h: i8, m: i8, s: i8, ns: i32) -> Time {
 }
 
 // ---------------------------------------------------------------- printer side
-//@harness x09_print_date_mut
+//@harness x09_print_date
 //@target fmt::temporal::printer::DateTimePrinter::print_date + fmt::util::{DecimalFormatter,Decimal::new} (src/fmt/temporal/printer.rs, src/fmt/util.rs)
 //@prop C09
 //@tier quick
@@ -109,7 +111,7 @@ fn mk_time(h: i8, m: i8, s: i8, ns: i32) -> Time {
 //@doc for EVERY civil date (-9999-01-01..=9999-12-31): the printed text is `YYYY-MM-DD` (10 bytes) for year >= 0 and `-YYYYYY-MM-DD` (13 bytes, ISO 8601 expanded year) for year < 0, and the independent reference reader decodes it to exactly (year, month, day)  [decode . print = id on Date]
 #[kani::proof]
 #[kani::unwind(9)]
-fn x09_print_date_mut() {
+fn x09_print_date() {
     let (y, m, d) = any_ymd();
     let date = mk_date(y, m, d);
     let mut w = Buf::new();
@@ -120,7 +122,7 @@ fn x09_print_date_mut() {
     assert!(ref_date(&w.b, w.n) == Some((y as i64, m as i64, d as i64)));
 }
 
-//@harness x09_print_time_mut
+//@harness x09_print_time
 //@target fmt::temporal::printer::DateTimePrinter::print_time + fmt::util::{Decimal::new,Fractional::new} (src/fmt/temporal/printer.rs, src/fmt/util.rs)
 //@prop C09
 //@tier quick
@@ -128,7 +130,8 @@ fn x09_print_date_mut() {
 //@doc for EVERY civil time (00:00:00..=23:59:59.999999999), default printer configuration: the text is `HH:MM:SS` (8 bytes) iff the nanosecond is 0, otherwise `HH:MM:SS.` + 1..=9 digits whose last digit is not '0' (trailing zeros trimmed), and the independent reference reader decodes it to exactly (hour, minute, second, nanosecond)  [decode . print = id on Time]
 #[kani::proof]
 #[kani::unwind(11)]
-fn x09_print_time_mut() {
+#[kani::solver(kissat)]
+fn x09_print_time() {
     let (h, m, s, ns) = any_time_fields();
     let time = mk_time(h, m, s, ns);
     let mut w = Buf::new();
@@ -137,4 +140,380 @@ fn x09_print_time_mut() {
     assert!((w.n == 8) == (ns == 0));
     assert!(w.n == 8 || (10 <= w.n && w.n <= 18 && w.b[w.n - 1] != b'0'));
     assert!(ref_time(&w.b, w.n) == Some((h as i64, m as i64, s as i64, ns as i64)));
+}
+
+// ---------------------------------------------------------------- parser side: dates
+/// Reference PREFIX reader for the Temporal `Date` production on a byte string (ISO 8601 calendar date,
+/// extended `YYYY-MM-DD` or basic `YYYYMMDD`, year either 4 digits or sign + 6 digits, "-000000" excluded,
+/// year range -9999..=9999): Some((y, m, d, bytes consumed)) or None (not a date).
+fn ref_date_prefix(b: &[u8]) -> Option<(i64, i64, i64, usize)> {
+    let at = |i: usize| -> Option<u8> { if i < b.len() { Some(b[i]) } else { None } };
+    let (y, p) = if b.len() > 0 && (b[0] == b'+' || b[0] == b'-') {
+        let a = dg2(at(1)?, at(2)?)? * 10000 + dg4(at(3)?, at(4)?, at(5)?, at(6)?)?;
+        if a > 9999 { return None; }
+        if b[0] == b'-' && a == 0 { return None; }
+        (if b[0] == b'-' { -a } else { a }, 7)
+    } else {
+        (dg4(at(0)?, at(1)?, at(2)?, at(3)?)?, 4)
+    };
+    let extended = at(p) == Some(b'-');
+    let p = if extended { p + 1 } else { p };
+    let m = dg2(at(p)?, at(p + 1)?)?;
+    if m < 1 || m > 11 { return None; }
+    let p = p + 2;
+    let p = if extended {
+        if at(p)? != b'-' { return None; }
+        p + 1
+    } else {
+        if at(p) == Some(b'-') { return None; }
+        p
+    };
+    let d = dg2(at(p)?, at(p + 1)?)?;
+    if !valid(y, m, d) { return None; }
+    Some((y, m, d, p + 2))
+}
+//@harness x09_parse_date_spec
+//@target fmt::temporal::parser::DateTimeParser::{parse_date_spec,parse_year,parse_year_sign,parse_month,parse_day,parse_date_separator} + util::parse::{i64,split,slicer} + civil::Date::new_ranged (src/fmt/temporal/parser.rs)
+//@prop C09
+//@tier quick
+//@timeout 1500
+//@doc for EVERY byte string of length 0..=32 (32 = the printer's longest datetime): parse_date_spec returns Ok exactly when the reference prefix reader finds a Gregorian date (extended or basic form; 4-digit year or sign + 6 digits within -9999..=9999, "-000000" rejected), with exactly that (year, month, day) and exactly the reference's unconsumed rest; everything else is Err, never a panic.  This is the contract used as a stub (date_spec_contract) by x09_roundtrip_datetime
+#[kani::proof]
+#[kani::unwind(8)]
+#[kani::solver(kissat)]
+fn x09_parse_date_spec() {
+    let b: [u8; 32] = kani::any();
+    let n: usize = kani::any();
+    kani::assume(n <= 32);
+    let r = DateTimeParser::new().parse_date_spec(&b[..n]);
+    match ref_date_prefix(&b[..n]) {
+        None => assert!(r.is_err()),
+        Some((y, m, d, used)) => match r {
+            Err(_) => assert!(false, "a valid date was rejected"),
+            Ok(p) => {
+                assert!(ymd(p.value.date) == (y, m, d));
+                assert!(p.input.len() == n - used);
+                assert!(p.value.input.0.len() == used);
+            }
+        },
+    }
+}
+
+/// The CONTRACT of parse_date_spec proved by x09_parse_date_spec (all inputs of length <= 32, asserted here), as a stub
+fn date_spec_contract<'i>(_p: &DateTimeParser, input: &'i [u8]) -> Result<Parsed<'i, ParsedDate<'i>>, Error> {
+    assert!(input.len() <= 32);
+    match ref_date_prefix(input) {
+        None => Err(Error::adhoc_from_static_str("not a date")),
+        Some((y, m, d, used)) => {
+            let value = ParsedDate { input: escape::Bytes(&input[..used]), date: mk_date(y as i16, m as i8, d as i8) };
+            Ok(Parsed { value, input: &input[used..] })
+        }
+    }
+}
+
+// Self-checking stubs: they replace parser stages that must be UNREACHABLE for the inputs of a harness and panic when
+// called, so a passing harness proves the unreachability instead of assuming it (nothing is trusted).  They are needed
+// because CBMC's symbolic execution cannot see that the rest of the input is empty and would otherwise unroll the time,
+// offset and RFC 9557 annotation parsers (> 15 min of symbolic execution alone, measured).
+fn unreachable_time_spec<'i>(_p: &DateTimeParser, _input: &'i [u8]) -> Result<Parsed<'i, ParsedTime<'i>>, Error> {
+    panic!("parse_time_spec reached")
+}
+fn unreachable_offset<'i>(_p: &DateTimeParser, _input: &'i [u8]) -> Result<Parsed<'i, Option<ParsedOffset>>, Error> {
+    panic!("parse_offset reached")
+}
+fn unreachable_annotations<'i>(_p: &DateTimeParser, _input: &'i [u8]) -> Result<Parsed<'i, ParsedAnnotations<'i>>, Error> {
+    panic!("parse_annotations reached")
+}
+
+/// the public entry point behind `<civil::Date as FromStr>::from_str`, checked against the reference reader
+fn check_parse_date<const N: usize>(b: &[u8; N]) {
+    let r = crate::fmt::temporal::DateTimeParser::new().parse_date(b);
+    match ref_date(b, N) {
+        None => assert!(r.is_err()),
+        Some((y, m, d)) => match r {
+            Err(_) => assert!(false, "a valid date was rejected"),
+            Ok(date) => assert!(ymd(date) == (y, m, d)),
+        },
+    }
+}
+
+//@harness x09_parse_date_10
+//@target fmt::temporal::DateTimeParser::parse_date (= <civil::Date as FromStr>::from_str) -> parser::DateTimeParser::parse_temporal_datetime -> parse_date_spec -> Parsed::into_full -> ParsedDateTime::to_date (src/fmt/temporal/mod.rs, parser.rs)
+//@prop C09
+//@tier quick
+//@timeout 900
+//@doc for EVERY 10-byte string of the printer's positive-year shape `????-??-??` (both '-' in place, the other 8 bytes arbitrary): the public date parser returns Ok(d) exactly when the independent reference reader (the same one that decodes the printer's output) finds a Gregorian date, and d has exactly those fields; everything else is Err, never a panic  [parse = decode].  Composition with x09_print_date: print emits this shape and decode(print(d)) = d, hence parse(print(d)) = Ok(d) for every Date with year >= 0.
+#[kani::proof]
+#[kani::stub(DateTimeParser::parse_time_spec, unreachable_time_spec)]
+#[kani::stub(DateTimeParser::parse_offset, unreachable_offset)]
+#[kani::stub(DateTimeParser::parse_annotations, unreachable_annotations)]
+#[kani::unwind(8)]
+fn x09_parse_date_10() {
+    let mut b: [u8; 10] = kani::any();
+    b[4] = b'-';
+    b[7] = b'-';
+    check_parse_date(&b);
+}
+
+//@harness x09_parse_date_13
+//@target fmt::temporal::DateTimeParser::parse_date (= <civil::Date as FromStr>::from_str) -> parser::DateTimeParser::parse_temporal_datetime -> parse_date_spec/parse_year (signed six-digit year) -> Parsed::into_full -> ParsedDateTime::to_date (src/fmt/temporal/mod.rs, parser.rs)
+//@prop C09
+//@tier quick
+//@timeout 900
+//@doc for EVERY 13-byte string of the printer's negative-year shape `s??????-??-??` (s = '-' as printed, or '+'; both '-' separators in place, the other 10 bytes arbitrary): the public date parser returns Ok(d) exactly when the reference reader finds a Gregorian date with year in -9999..=9999 ("-000000" is Err), and d has exactly those fields  [parse = decode].  Composition with x09_print_date: parse(print(d)) = Ok(d) for every Date with year < 0.
+#[kani::proof]
+#[kani::stub(DateTimeParser::parse_time_spec, unreachable_time_spec)]
+#[kani::stub(DateTimeParser::parse_offset, unreachable_offset)]
+#[kani::stub(DateTimeParser::parse_annotations, unreachable_annotations)]
+#[kani::unwind(8)]
+fn x09_parse_date_13() {
+    let mut b: [u8; 13] = kani::any();
+    b[7] = b'-';
+    b[10] = b'-';
+    // two concrete signs (a symbolic sign byte would make the parser's 4-digit-year path reachable for symbolic execution)
+    if kani::any() { b[0] = b'-'; check_parse_date(&b); } else { b[0] = b'+'; check_parse_date(&b); }
+}
+
+// ---------------------------------------------------------------- parser side: times
+/// Reference PREFIX reader for the Temporal `TimeSpec` production on the byte string b (ISO 8601 time of day,
+/// extended `HH[:MM[:SS[.f{1,9}]]]` or basic `HH[MM[SS[.f{1,9}]]]`, decimal sign '.' or ',', second 00..=60):
+/// Some((h, m, s, nanosecond, bytes consumed)) with the RAW second (60 stays 60), or None (not a time).
+fn ref_time_prefix(b: &[u8]) -> Option<(i64, i64, i64, i64, usize)> {
+    let at = |i: usize| -> Option<u8> { if i < b.len() { Some(b[i]) } else { None } };
+    let isd = |i: usize| -> bool { match at(i) { Some(c) => dg(c).is_some(), None => false } };
+    let h = dg2(at(0)?, at(1)?)?;
+    if h > 23 { return None; }
+    let extended = at(2) == Some(b':');
+    let mut p = 2;
+    if extended { p = 3; } else if !(isd(2) && isd(3)) { return Some((h, 0, 0, 0, 2)); }
+    let m = dg2(at(p)?, at(p + 1)?)?;
+    if m > 59 { return None; }
+    p += 2;
+    if extended {
+        if at(p) != Some(b':') { return Some((h, m, 0, 0, p)); }
+        p += 1;
+    } else if !(isd(p) && isd(p + 1)) {
+        return Some((h, m, 0, 0, p));
+    }
+    let s = dg2(at(p)?, at(p + 1)?)?;
+    if s > 59 { return None; }
+    p += 2;
+    if at(p) != Some(b'.') && at(p) != Some(b',') { return Some((h, m, s, 0, p)); }
+    p += 1;
+    if !isd(p) { return None; }
+    let mut ns: i64 = 0;
+    let mut k = 0;
+    let mut open = true;
+    while k < 9 {
+        ns = ns * 10;
+        if open && isd(p) { ns += (b[p] - b'0') as i64; p += 1; } else { open = false; }
+        k += 1;
+    }
+    Some((h, m, s, ns, p))
+}
+fn hmsn(t: Time) -> (i64, i64, i64, i64) {
+    (t.hour() as i64, t.minute() as i64, t.second() as i64, t.subsec_nanosecond() as i64)
+}
+
+//@harness x09_parse_time_spec
+//@target fmt::temporal::parser::DateTimeParser::{parse_time_spec,parse_hour,parse_minute,parse_second,parse_time_separator} + fmt::util::parse_temporal_fraction + util::parse::{i64,fraction,split,slicer} (src/fmt/temporal/parser.rs, src/fmt/util.rs, src/util/parse.rs)
+//@prop C09
+//@tier quick
+//@timeout 1500
+//@doc for EVERY byte string of length 0..=18 (18 = the printer's longest time `HH:MM:SS.fffffffff`): parse_time_spec returns Ok exactly when the reference prefix reader finds a time of day (extended or basic form, optional minute/second, '.' or ',' fraction of 1..=9 digits), with exactly that hour, minute, nanosecond and unconsumed rest, second = min(raw second, 59) (a leap second `60` is clamped to 59), `extended` = (third byte is ':'); everything else is Err, never a panic.  This is the contract used as a stub (time_spec_contract) by x09_parse_time
+#[kani::proof]
+#[kani::unwind(11)]
+#[kani::solver(kissat)]
+fn x09_parse_time_spec() {
+    let b: [u8; 18] = kani::any();
+    let n: usize = kani::any();
+    kani::assume(n <= 18);
+    let r = DateTimeParser::new().parse_time_spec(&b[..n]);
+    match ref_time_prefix(&b[..n]) {
+        None => assert!(r.is_err()),
+        Some((h, m, s, ns, used)) => match r {
+            Err(_) => assert!(false, "a valid time was rejected"),
+            Ok(p) => {
+                assert!(hmsn(p.value.time) == (h, m, if s == 60 { 59 } else { s }, ns));
+                assert!(p.input.len() == n - used);
+                // the two remaining fields of ParsedTime (used by parse_temporal_time / error messages)
+                assert!(p.value.extended == (n > 2 && b[2] == b':'));
+                assert!(p.value.input.0.len() == used);
+            }
+        },
+    }
+}
+
+/// The CONTRACT of parse_time_spec proved by x09_parse_time_spec (all inputs of length <= 18, asserted here), as a stub:
+/// used by x09_parse_time so that the glue code of parse_temporal_time is verified without re-executing the digit loops.
+fn time_spec_contract<'i>(_p: &DateTimeParser, input: &'i [u8]) -> Result<Parsed<'i, ParsedTime<'i>>, Error> {
+    assert!(input.len() <= 18);
+    match ref_time_prefix(input) {
+        None => Err(Error::adhoc_from_static_str("not a time")),
+        Some((h, m, s, ns, used)) => {
+            let s = if s == 60 { 59 } else { s };
+            let value = ParsedTime {
+                input: escape::Bytes(&input[..used]),
+                time: mk_time(h as i8, m as i8, s as i8, ns as i32),
+                extended: input.len() > 2 && input[2] == b':',
+            };
+            Ok(Parsed { value, input: &input[used..] })
+        }
+    }
+}
+
+fn unreachable_offset_parser<'i>(_p: &offset::Parser, _input: &'i [u8]) -> Result<Parsed<'i, ParsedOffset>, Error> {
+    panic!("offset::Parser::parse reached")
+}
+fn unreachable_month_day<'i>(_p: &DateTimeParser, _input: &'i [u8]) -> Result<Parsed<'i, ()>, Error> {
+    panic!("parse_month_day / parse_year_month reached (only for times in basic format)")
+}
+fn unreachable_annotation_parser<'i>(_p: &rfc9557::Parser, _input: &'i [u8]) -> Result<Parsed<'i, ParsedAnnotations<'i>>, Error> {
+    panic!("rfc9557::Parser::parse reached")
+}
+
+//@harness x09_time_shape_is_not_a_datetime
+//@target fmt::temporal::parser::DateTimeParser::parse_temporal_datetime -> parse_date_spec -> parse_year (src/fmt/temporal/parser.rs)
+//@prop C09
+//@tier quick
+//@timeout 900
+//@doc LEMMA for x09_parse_time: for EVERY byte string of length 3..=18 whose third byte is ':' (every time the printer emits), parse_temporal_datetime returns Err (the year needs 4 or sign+6 digits); the time/offset/annotation stages are proved unreachable (self-checking stubs).  This is the contract of the `datetime_attempt_fails` stub.
+#[kani::proof]
+#[kani::stub(DateTimeParser::parse_time_spec, unreachable_time_spec)]
+#[kani::stub(DateTimeParser::parse_offset, unreachable_offset)]
+#[kani::stub(DateTimeParser::parse_annotations, unreachable_annotations)]
+#[kani::unwind(8)]
+fn x09_time_shape_is_not_a_datetime() {
+    let mut b: [u8; 18] = kani::any();
+    let n: usize = kani::any();
+    kani::assume(3 <= n && n <= 18);
+    b[2] = b'0';
+    assert!(DateTimeParser::new().parse_temporal_datetime(&b[..n]).is_err());
+}
+
+/// stand-in for parse_temporal_datetime inside x09_parse_time: checks its precondition (third byte ':') and returns
+/// Err, which is what the real function does for exactly these inputs (lemma x09_time_shape_is_not_a_datetime)
+fn datetime_attempt_fails<'i>(_p: &DateTimeParser, input: &'i [u8]) -> Result<Parsed<'i, ParsedDateTime<'i>>, Error> {
+    assert!(input.len() >= 3 && input.len() <= 18 && input[2] == b':');
+    Err(Error::adhoc_from_static_str("not a datetime"))
+}
+
+//@harness x09_parse_time
+//@target fmt::temporal::DateTimeParser::parse_time (= <civil::Time as FromStr>::from_str) -> parser::DateTimeParser::parse_temporal_time (glue) -> {parse_offset, parse_annotations} -> Parsed::into_full (src/fmt/temporal/mod.rs, parser.rs)
+//@prop C09
+//@tier quick
+//@timeout 1500
+//@doc for EVERY string of the printer's time shape -- length 8 `??:??:??` or 10..=18 `??:??:??.d+` with both ':' and the '.' in place, the six H/M/S bytes arbitrary, the 1..=9 fraction bytes ASCII digits: the public time parser returns Ok(t) exactly when the independent RFC 3339 reference reader (the one that decodes the printer's output) finds hour <= 23, minute <= 59, second <= 60, and t has exactly those fields with second = min(second, 59); everything else is Err, never a panic  [parse = decode on the printer's image, where second <= 59].  The offset and RFC 9557 annotation parsers and the basic-format ambiguity checks (parse_month_day, parse_year_month) are proved unreachable for these inputs (self-checking stubs); two callees are replaced by their PROVED contracts, with the contract's precondition asserted in the stub: parse_time_spec by x09_parse_time_spec (all inputs <= 18 bytes) and the failed "is it a full datetime?" attempt by lemma x09_time_shape_is_not_a_datetime.  Composition with x09_print_time: print emits this shape and decode(print(t)) = t, hence parse(print(t)) = Ok(t) for every Time.
+#[kani::proof]
+#[kani::stub(DateTimeParser::parse_temporal_datetime, datetime_attempt_fails)]
+#[kani::stub(DateTimeParser::parse_time_spec, time_spec_contract)]
+#[kani::stub(DateTimeParser::parse_month_day, unreachable_month_day)]
+#[kani::stub(DateTimeParser::parse_year_month, unreachable_month_day)]
+#[kani::stub(crate::fmt::offset::Parser::parse, unreachable_offset_parser)]
+#[kani::stub(crate::fmt::rfc9557::Parser::parse, unreachable_annotation_parser)]
+#[kani::unwind(11)]
+#[kani::solver(kissat)]
+fn x09_parse_time() {
+    let mut b: [u8; 18] = kani::any();
+    let n: usize = kani::any();
+    kani::assume(n == 8 || (10 <= n && n <= 18));
+    b[2] = b':';
+    b[5] = b':';
+    if n > 8 { b[8] = b'.'; }
+    let mut i = 9;
+    while i < 18 { if i < n { kani::assume(dg(b[i]).is_some()); } i += 1; }
+    let r = crate::fmt::temporal::DateTimeParser::new().parse_time(&b[..n]);
+    // the independent reader of the printer's output accepts second <= 59 only; RFC 3339 also allows 60
+    let leap = b[6] == b'6' && b[7] == b'0';
+    let mut c = b;
+    if leap { c[6] = b'5'; c[7] = b'9'; }
+    match ref_time(&c, n) {
+        None => assert!(r.is_err()),
+        Some(hmsn_ref) => match r {
+            Err(_) => assert!(false, "a valid time was rejected"),
+            Ok(t) => assert!(hmsn(t) == hmsn_ref),
+        },
+    }
+}
+
+// ---------------------------------------------------------------- direct round trips (capstones)
+//@harness x09_roundtrip_date
+//@target fmt::temporal::printer::DateTimePrinter::print_date ; fmt::temporal::DateTimeParser::parse_date (= Display / FromStr of civil::Date) (src/fmt/temporal/printer.rs, parser.rs, mod.rs)
+//@prop C09
+//@tier quick
+//@timeout 1500
+//@doc for EVERY civil date d: parse_date(print_date(d)) = Ok(d) (same year, month, day), all real code; the time/offset/annotation stages of the parser are proved unreachable (self-checking stubs)
+#[kani::proof]
+#[kani::stub(DateTimeParser::parse_time_spec, unreachable_time_spec)]
+#[kani::stub(DateTimeParser::parse_offset, unreachable_offset)]
+#[kani::stub(DateTimeParser::parse_annotations, unreachable_annotations)]
+#[kani::unwind(9)]
+#[kani::solver(kissat)]
+fn x09_roundtrip_date() {
+    let (y, m, d) = any_ymd();
+    let date = mk_date(y, m, d);
+    let mut w = Buf::new();
+    let r = DateTimePrinter::new().print_date(&date, &mut w);
+    assert!(r.is_ok() && !w.overflow);
+    match crate::fmt::temporal::DateTimeParser::new().parse_date(&w.b[..w.n]) {
+        Err(_) => assert!(false, "printed date does not parse"),
+        Ok(back) => assert!(ymd(back) == (y as i64, m as i64 + 1, d as i64)),
+    }
+}
+
+//@harness x09_roundtrip_time
+//@target fmt::temporal::printer::DateTimePrinter::print_time ; fmt::temporal::DateTimeParser::parse_time (= Display / FromStr of civil::Time) (src/fmt/temporal/printer.rs, parser.rs, mod.rs)
+//@prop C09
+//@tier quick
+//@timeout 1500
+//@doc for EVERY civil time t: parse_time(print_time(t)) = Ok(t) (same hour, minute, second, nanosecond).  Real printer, real parse_temporal_time glue / parse_offset / parse_annotations / into_full; parse_time_spec and the failed datetime attempt are replaced by their proved contracts (x09_parse_time_spec, x09_time_shape_is_not_a_datetime; preconditions asserted in the stubs); offset/annotation parsers and basic-format ambiguity checks proved unreachable
+#[kani::proof]
+#[kani::stub(DateTimeParser::parse_temporal_datetime, datetime_attempt_fails)]
+#[kani::stub(DateTimeParser::parse_time_spec, time_spec_contract)]
+#[kani::stub(DateTimeParser::parse_month_day, unreachable_month_day)]
+#[kani::stub(DateTimeParser::parse_year_month, unreachable_month_day)]
+#[kani::stub(crate::fmt::offset::Parser::parse, unreachable_offset_parser)]
+#[kani::stub(crate::fmt::rfc9557::Parser::parse, unreachable_annotation_parser)]
+#[kani::unwind(11)]
+#[kani::solver(kissat)]
+fn x09_roundtrip_time() {
+    let (h, m, s, ns) = any_time_fields();
+    let time = mk_time(h, m, s, ns);
+    let mut w = Buf::new();
+    let r = DateTimePrinter::new().print_time(&time, &mut w);
+    assert!(r.is_ok() && !w.overflow);
+    match crate::fmt::temporal::DateTimeParser::new().parse_time(&w.b[..w.n]) {
+        Err(_) => assert!(false, "printed time does not parse"),
+        Ok(back) => assert!(hmsn(back) == (h as i64, m as i64, s as i64, ns as i64 + 1)),
+    }
+}
+
+//@harness x09_roundtrip_datetime
+//@target fmt::temporal::printer::DateTimePrinter::print_datetime ; fmt::temporal::DateTimeParser::parse_datetime (= Display / FromStr of civil::DateTime) (src/fmt/temporal/printer.rs, parser.rs, mod.rs)
+//@prop C09
+//@tier quick
+//@timeout 1500
+//@doc for EVERY civil datetime dt: parse_datetime(print_datetime(dt)) = Ok(dt) (same date and time fields); the text is date 'T' time (19..=32 bytes).  Real printer, real parse_temporal_datetime glue / parse_offset / parse_annotations / into_full / to_datetime; parse_date_spec and parse_time_spec replaced by their proved contracts (x09_parse_date_spec: all inputs <= 32 bytes, x09_parse_time_spec: all inputs <= 18 bytes; the length preconditions are asserted in the stubs); offset/annotation parsers proved unreachable (self-checking stubs)
+#[kani::proof]
+#[kani::stub(DateTimeParser::parse_date_spec, date_spec_contract)]
+#[kani::stub(DateTimeParser::parse_time_spec, time_spec_contract)]
+#[kani::stub(crate::fmt::offset::Parser::parse, unreachable_offset_parser)]
+#[kani::stub(crate::fmt::rfc9557::Parser::parse, unreachable_annotation_parser)]
+#[kani::unwind(11)]
+#[kani::solver(kissat)]
+fn x09_roundtrip_datetime() {
+    let (y, mo, d) = any_ymd();
+    let (h, mi, s, ns) = any_time_fields();
+    let dt = DateTime::from_parts(mk_date(y, mo, d), mk_time(h, mi, s, ns));
+    let mut w = BufN::<32>::new();
+    let r = DateTimePrinter::new().print_datetime(&dt, &mut w);
+    assert!(r.is_ok() && !w.overflow);
+    assert!(w.b[if y >= 0 { 10 } else { 13 }] == b't');
+    match crate::fmt::temporal::DateTimeParser::new().parse_datetime(&w.b[..w.n]) {
+        Err(_) => assert!(false, "printed datetime does not parse"),
+        Ok(back) => {
+            assert!(ymd(back.date()) == (y as i64, mo as i64, d as i64));
+            assert!(hmsn(back.time()) == (h as i64, mi as i64, s as i64, ns as i64));
+        }
+    }
 }
